@@ -49,6 +49,25 @@ func ChannelQ(t Tier, r *Rng, emit Emit) {
 		}
 		emit("Q " + strings.Join(subs, "|"))
 	}
+	// directed: one prefixer, neighbouring lengths one after the other (a prefix handed out with spare
+	// capacity over a shared table is overwritten by the caller's append)
+	for _, k := range fam['P'] {
+		name := strings.TrimPrefix(k, "P ")
+		if strings.HasSuffix(name, ".F") || name == "none" {
+			continue
+		}
+		for i := 0; i < t.N(6, 60); i++ {
+			n := r.Intn(40)
+			if i%3 == 0 {
+				n = 250 + r.Intn(10)
+			}
+			subs := []string{}
+			for _, d := range []int{0, 1, 2, 0, 3} {
+				subs = append(subs, fmt.Sprintf("P,%s,enc,%d,%d", name, 99999, n+d))
+			}
+			emit("Q " + strings.Join(subs, "|"))
+		}
+	}
 	// directed: one padder object, target lengths long / short / long with short values
 	vals := [][]byte{{}, {'a'}, {'a', 'b'}, {'x'}, {'0', '1'}}
 	for _, kind := range []string{"L", "R"} {
